@@ -104,11 +104,23 @@ MatchesC(C, tbls) ==
     LET cand == {j \in 1..Len(tabs) : tabs[j].name = tbls[i].name /\ TabVisC(C, tabs[j])} IN
     IF cand = {} THEN tbls[i].out.k = "err"
     ELSE IF tbls[i].out.k = "rows" THEN BagEq(TabRowsC(C, tabs[CHOOSE j \in cand : TRUE]), tbls[i].out.rows) ELSE FALSE
+\* finding CheckpointNotAtomic: a crash inside Pager::flush (checkpoint, VACUUM), after dirty pages were written and
+\* before the log was truncated, replays the log on top of pages that already contain its effects (logical redo is
+\* not idempotent): the outcome of such a crash point is not constrained while the finding is recorded
 CrashOk(e) ==
-  IF ~Ok(e.open) THEN FALSE                                                   \* C08: the database always reopens
+  IF "CheckpointNotAtomic" \in Dev /\ e.during \in {"flush", "vacuum"} THEN TRUE
+  ELSE IF ~Ok(e.open) THEN FALSE                                                   \* C08: the database always reopens
   ELSE IF MatchesC(committed, e.tables) THEN TRUE                             \* C01 + C02: exactly the acknowledged transactions
   ELSE IF e.inflight THEN MatchesC(committed \ {e.tx}, e.tables) ELSE FALSE   \* ... or without the one whose commit was in progress
-TCrashRead == Is("crashread") /\ Step /\ (CrashOk(Ev) = TRUE) /\ UNCHANGED dbvars
+\* C08: opening the recovered database again changes nothing, and it is usable (a probe table can be created, written, read)
+SameTables(a, b) == Len(a) = Len(b) /\ \A i \in 1..Len(a) :
+                      a[i].name = b[i].name /\ a[i].out.k = b[i].out.k
+                      /\ (IF a[i].out.k = "rows" THEN BagEq(a[i].out.rows, b[i].out.rows) ELSE TRUE)
+ProbeOk(p) == IF Len(p) # 3 THEN FALSE
+              ELSE Ok(p[1]) /\ Ok(p[2]) /\ p[3].k = "rows" /\ p[3].rows = << <<I(1), I(2)>> >>
+RepeatOk(e) == IF "CheckpointNotAtomic" \in Dev /\ e.during \in {"flush", "vacuum"} THEN TRUE
+               ELSE Ok(e.again_open) /\ SameTables(e.tables, e.again) /\ ProbeOk(e.probe)
+TCrashRead == Is("crashread") /\ Step /\ (CrashOk(Ev) = TRUE) /\ (RepeatOk(Ev) = TRUE) /\ UNCHANGED dbvars
 
 TNext == TCrashRead \/ TReset \/ TBegin \/ TSelect \/ TDml \/ TBatch \/ TCreate \/ TDrop \/ TIndex \/ TOpaque
          \/ TCommit \/ TRollback \/ TVacuum \/ TReopen \/ TNoop \/ TSizes
